@@ -1,8 +1,21 @@
 # C13 - compiler argument lists honour the append/override/dedup contract.
 #
 # Explicit-state exploration of the REAL lazy structure (CLikeCompilerArgs bound to the gcc object that
-# mesonbuild's own detection returns, and the base CompilerArgs class) against an EAGER reference list written
-# from the property statement.
+# mesonbuild's own detection returns, the base CompilerArgs class and every other argument-list class of the tree -
+# DCompilerArgs) against an EAGER reference list written from the property statement.
+#
+# The argument-list CLASS is a dimension of every part: the property quantifies over every way a command line is
+# assembled, and what a given argument IS (goes in front or not; override-type, once-only or not de-dupable) is
+# declared per class in its tables (prepend_prefixes, dedup2_*, dedup1_*).  Each class is driven with its own
+# alphabet, chosen so that every combination (prepended yes/no) x (not de-dupable / override / once-only) that the
+# class's tables can produce is represented (part classes: computed from the tables with probe arguments and
+# required).  The eager algorithm is the same for every class; only the kind table it is given differs:
+#   clike, base : the kinds the property statement names (-I/-L front-most wins; -D/-U/-isystem last wins; -lfoo,
+#                 library files once) - cross-checked against the class tables (a contradiction is a violation);
+#   d           : read from the tables of the class with table_kind() below (the tables are the documented contract
+#                 of a class; table_kind is written from the comments on the attributes, it does not call the
+#                 implementation's classifier): -I front override, -L<anything> front and NOT de-dupable (linker
+#                 pass-through: -L-lfoo twice stays twice), -L<library file> front once-only, library files once.
 #
 #   part bfs     breadth-first search over operation sequences, de-duplicated on the product state
 #                  (real _container, pre, post, needs_override_check of the live object and of every frozen
@@ -35,29 +48,44 @@
 #      is compared, so reversed() failing because of that over-count IS reported)
 #   * the content of an object after to_native() without copy (group markers are written into it)
 #   * a bare `-isystem` that is not followed by a directory operand      -> skipped_unspecified (native part)
+#   * a prepend prefix used as a bare option whose operand is the next argument (`-I dir`): the tables say "goes in
+#     front" and "defined by what follows it" at the same time -> in no alphabet
+#   * an argument that matches an override table and a once-only table of its class at once (`-Ifoo.a`): the tables
+#     do not say which wins -> in no alphabet (table_kind returns None, the probe counts it as ambiguous)
 #   (absolute paths given to append_direct/extend_direct are covered by one absolute library path, alone and in
 #    two-element batches with every other argument)
 #
 # Checked independently of the reference list (from the operation history only): no argument lost or invented,
 # non-dedupable arguments keep relative order and multiplicity, the later-added of duplicated settings wins.
-import argparse, collections, json, operator, os, sys
-from verif.core import Check, pmap, run_main, scratch_root, NCPU
+import argparse, collections, json, operator, os, re, sys
+from verif.core import Check, pmap, run_main, scratch_root, NCPU, REPO
 
 from mesonbuild.arglist import CompilerArgs
 from mesonbuild.compilers.mixins.clike import CLikeCompilerArgs
+from mesonbuild.compilers.d import DCompilerArgs
 
 # ------------------------------------------------------------------------------------------------------------
-# Alphabet and the kinds the property statement gives them (NOT read from the implementation's prefix tables).
-#   front    : a -I/-L argument: its batch goes in front of everything added earlier
+# Alphabets and kinds.
+#   front    : the argument's batch position: it goes in front of everything added earlier (-I/-L)
 #   override : of identical ones only the highest-precedence occurrence survives
 #   once     : a repeat of an argument already present is dropped
 Kind = collections.namedtuple('Kind', 'front override once')
-FRONT_OVR = Kind(True, True, False)      # -I -L        : front-most wins
-BACK_OVR = Kind(False, True, False)      # -D -U -isystem: last wins
+FRONT_OVR = Kind(True, True, False)      # -I -L (C-like), -I (D) : front-most wins
+BACK_OVR = Kind(False, True, False)      # -D -U -isystem         : last wins
 ONCE = Kind(False, False, True)          # -lfoo, library file
 PLAIN = Kind(False, False, False)        # anything else: never de-duplicated, never reordered
+FRONT_PLAIN = Kind(True, False, False)   # D: -L-lfoo, -L-L/dir   : goes in front, never de-duplicated
+FRONT_ONCE = Kind(True, False, True)     # D: -L/x/libfoo.a       : goes in front, a repeat is dropped
+KIND_NAMES = {FRONT_OVR: 'front', BACK_OVR: 'back', ONCE: 'once', PLAIN: 'plain', FRONT_PLAIN: 'frontplain', FRONT_ONCE: 'frontonce'}
+
+CLASSES = ['clike', 'base', 'd']
+CLS = {'clike': CLikeCompilerArgs, 'base': CompilerArgs, 'd': DCompilerArgs}
 
 ALPHA = ['-Ia', '-Ib', '-La', '-Dx', '-Ux', '-isystemq', '-lfoo', 'libz.a', '-Wall']
+# D: two front override, two front not-de-dupable (linker pass-through), one front once-only (a library file handed to
+# the linker), one once-only at the back, one plain
+ALPHA_D = ['-Ia', '-Ib', '-L-lfoo', '-L-lbar', '-L/x/libfoo.a', 'libz.a', '-O']
+ALPHAS = {'clike': ALPHA, 'base': ALPHA, 'd': ALPHA_D}
 # an absolute path to a library: only ever given to append_direct/extend_direct, whose contract is "no reordering or
 # de-dup except for absolute paths, which can always be de-duped safely" = the ordinary append for that one element
 ABS = '/q/libq.a'
@@ -65,20 +93,83 @@ ABS = '/q/libq.a'
 # never de-duplicated or moved (its operand neither): plain arguments, given as two-element batches
 BARE = [('-isystem', '/a'), ('-isystem', '/b'), ('-D', 'FOO'), ('-D', 'BAR')]
 BARE_ATOMS = ['-isystem', '/a', '/b', '-D', 'FOO', 'BAR']
-KINDS = {
+# The kinds the property statement names (NOT read from the implementation's prefix tables).
+STATED = {
     'clike': {'-Ia': FRONT_OVR, '-Ib': FRONT_OVR, '-La': FRONT_OVR, '-Dx': BACK_OVR, '-Ux': BACK_OVR,
               '-isystemq': BACK_OVR, '-lfoo': ONCE, 'libz.a': ONCE, '-Wall': PLAIN},
     # The base class declares no prepend/override prefixes at all; only library *files* are once-only.
     'base': {a: (ONCE if a == 'libz.a' else PLAIN) for a in ALPHA},
 }
-for _k in KINDS.values():
+for _k in STATED.values():
     _k[ABS] = ONCE
     for _a in BARE_ATOMS:
         _k[_a] = PLAIN
+
+
+def table_kind(cls, arg):
+    """The kind the TABLES of an argument-list class give an argument, read from the attribute comments of
+    mesonbuild/arglist.py: prepend_prefixes = "arg prefixes that override by prepending instead of appending";
+    dedup2_{prefixes,suffixes,args} = "must be de-duped by returning 2" (Dedup.OVERRIDDEN); dedup1_{prefixes,suffixes,
+    args,regex} = "must be de-duped by returning 1" (Dedup.UNIQUE); "argument prefixes that are actually not used as a
+    prefix must never be deduplicated because they are defined by what comes after them".
+    None = the tables leave it open (both de-dup tables match, or a prepend prefix used as a bare option)."""
+    front = bool(cls.prepend_prefixes) and arg.startswith(tuple(cls.prepend_prefixes))
+    if arg in cls.prepend_prefixes:
+        return None
+    if arg in cls.dedup1_prefixes or arg in cls.dedup2_prefixes:
+        return Kind(front, False, False)
+    ovr = arg in cls.dedup2_args or any(arg.startswith(x) for x in cls.dedup2_prefixes) or any(arg.endswith(x) for x in cls.dedup2_suffixes)
+    once = (arg in cls.dedup1_args or any(arg.startswith(x) for x in cls.dedup1_prefixes)
+            or any(arg.endswith(x) for x in cls.dedup1_suffixes) or bool(cls.dedup1_regex.search(arg)))
+    if ovr and once:
+        return None
+    return Kind(front, ovr, once)
+
+
+def table_probe(cls):
+    """Every (front, de-dup class) combination the tables of a class can produce, found with probe arguments built
+    from the tables themselves: every prefix / standalone argument / suffix of any table, alone and combined."""
+    heads = sorted(set(cls.prepend_prefixes) | set(cls.dedup1_prefixes) | set(cls.dedup2_prefixes)) + ['', '-q']
+    tails = sorted(set(cls.dedup1_suffixes) | set(cls.dedup2_suffixes)) + ['', '.so.1']
+    probes = [h + 'libq' + t for h in heads for t in tails] + sorted(set(cls.dedup1_args) | set(cls.dedup2_args))
+    combos, ambiguous = {}, 0
+    for a in probes:
+        k = table_kind(cls, a)
+        if k is None:
+            ambiguous += 1
+        else:
+            combos.setdefault(k, a)
+    return combos, len(probes), ambiguous
+
+
+KINDS = {}
+
+
+def build_kinds():
+    """Kind table per class (the input of the eager reference). Returns the contradictions between the property
+    statement and the class tables (none expected)."""
+    bad = []
+    for c in CLASSES:
+        KINDS[c] = {}
+        for a in ALPHAS[c] + [ABS] + BARE_ATOMS:
+            tk = table_kind(CLS[c], a)
+            st = STATED.get(c, {}).get(a)
+            if st is not None and tk != st:
+                bad.append((c, a, st, tk))
+            KINDS[c][a] = st if st is not None else tk
+    return bad
+
+
+build_kinds()
 # settings that contradict each other: the later-added one must take effect (come last)
 SAME_SETTING = [('-Dx', '-Ux')]
-ENC = {a: chr(97 + i) for i, a in enumerate(ALPHA + [ABS] + BARE_ATOMS)}
+ENC = {a: chr(97 + i) for i, a in enumerate(dict.fromkeys(ALPHA + ALPHA_D + [ABS] + BARE_ATOMS))}
 DEC = {v: k for k, v in ENC.items()}
+
+
+def nondedup(k):
+    return k is not None and not k.override and not k.once
+
 
 
 def enc(seq):
@@ -111,7 +202,8 @@ def build_ops(alpha):
     return ops
 
 
-OPS = []                # filled by main()
+OPS = []                # the operation list of the class being driven; set before every pmap (workers are forked per call)
+OPSETS = {}             # class -> its full operation list; filled by main()
 TERMINAL = ('to_native', ())
 OBS_NAMES = ('read', 'tn_copy', 'to_native')
 CC = None               # the detected compiler object
@@ -138,7 +230,9 @@ def opname(op):
 def fresh(clsname, init=None):
     if clsname == 'clike':
         return CC.compiler_args(init)
-    return CompilerArgs(CC, init)
+    # base and D: bound to the same compiler object (it only matters to to_native: base-class conversion = the
+    # compiler's unix_args_to_native, the identity for gcc)
+    return CLS[clsname](CC, init)
 
 
 def step_real(obj, origs, op):
@@ -227,7 +321,7 @@ def ref_is_default_dir(d):
 def ref_native(lst, clsname):
     """to_native for a GNU-like linker: the list minus default -isystem directories, with one
     --start-group/--end-group pair around first..last library when there are at least two."""
-    if clsname == 'base':
+    if clsname != 'clike':
         return list(lst)
     out = []
     i = 0
@@ -251,30 +345,39 @@ def ref_native(lst, clsname):
 # Invariants derived from the history alone (independent of ref_batch).
 def history_facts(ops, kinds):
     added = collections.Counter()
-    plain_seq = []
+    plain_seq = []         # the non-dedupable arguments: every batch's prepended ones in front, the others behind, in order
     last_setting = {}      # setting group -> (arg, was_front_insert)
-    last_front = None      # first -I/-L of the most recent `+=` batch / insert(0) that held one
+    last_front = None      # first prepended (not once-only) argument of the most recent `+=` batch / insert(0) that held one
     for n, a in ops:
         if n in ('iadd', 'append', 'extend', 'append_direct', 'extend_direct'):
             added.update(a)
-            plain_seq.extend(x for x in a if kinds[x] == PLAIN)
+            if n in ('iadd', 'append', 'extend'):
+                plain_seq = ([x for x in a if nondedup(kinds[x]) and kinds[x].front] + plain_seq
+                             + [x for x in a if nondedup(kinds[x]) and not kinds[x].front])
+            else:
+                for x in a:         # direct: stays where it is put (an absolute path is an ordinary append)
+                    if nondedup(kinds[x]):
+                        if os.path.isabs(x) and kinds[x].front:
+                            plain_seq.insert(0, x)
+                        else:
+                            plain_seq.append(x)
             for x in a:
                 for g in SAME_SETTING:
                     if x in g and kinds[x].override:
                         last_setting[g] = (x, False)
             if n in ('iadd', 'append', 'extend'):
-                fr = [x for x in a if kinds[x].front]
+                fr = [x for x in a if kinds[x].front and not kinds[x].once]
                 if fr:
                     last_front = fr[0]
         elif n == 'insert0':
             x = a[0]
             added[x] += 1
-            if kinds[x] == PLAIN:
+            if nondedup(kinds[x]):
                 plain_seq.insert(0, x)
             for g in SAME_SETTING:
                 if x in g and kinds[x].override:
                     last_setting[g] = (x, True)
-            if kinds[x].front:
+            if kinds[x].front and not kinds[x].once:
                 last_front = x
     return added, plain_seq, last_setting, last_front
 
@@ -292,8 +395,10 @@ def check_invariants(ops, observed, kinds):
     for a in added:
         if a not in got:
             bad.append(('lost', 'argument %r was added but is absent' % (a,)))
-    obs_plain = [a for a in observed if kinds.get(a) == PLAIN]
-    if obs_plain != plain_seq:
+    obs_plain = [a for a in observed if nondedup(kinds.get(a))]
+    if collections.Counter(obs_plain) != collections.Counter(plain_seq):
+        bad.append(('plain-multiplicity', 'non-dedupable arguments are %r, history says %r' % (obs_plain, plain_seq)))
+    elif obs_plain != plain_seq:
         bad.append(('plain-order', 'non-dedupable arguments are %r, history says %r' % (obs_plain, plain_seq)))
     for g, (x, front_ins) in last_setting.items():
         if front_ins:
@@ -302,7 +407,7 @@ def check_invariants(ops, observed, kinds):
         if ing and ing[-1] != x:
             bad.append(('later-wins', 'last added of %r is %r but %r comes last' % (g, x, ing[-1])))
     if last_front is not None:
-        fr = [a for a in observed if kinds.get(a) is not None and kinds[a].front]
+        fr = [a for a in observed if kinds.get(a) is not None and kinds[a].front and not kinds[a].once]
         if fr and fr[0] != last_front:
             bad.append(('later-wins-front', 'most recent -I/-L batch starts with %r but %r is searched first' % (last_front, fr[0])))
     return bad
@@ -325,11 +430,29 @@ def diff_class(expected, observed, kinds):
     return 'order-' + '+'.join(moved)
 
 
+def batch_repeat_tag(ops, expected, observed, kinds):
+    """Narrows a disagreement: the ONLY difference is extra copies of once-only arguments whose first addition held
+    them several times in ONE batch (nothing missing, every other argument in its place, and not more extra copies
+    than that batch had repeats)."""
+    extra = collections.Counter(observed) - collections.Counter(expected)
+    if not extra or collections.Counter(expected) - collections.Counter(observed):
+        return ''
+    for x, nx in extra.items():
+        if kinds.get(x) is None or not kinds[x].once:
+            return ''
+        first = next((o for o in ops if o[0] not in OBS_NAMES and x in o[1]), None)
+        if first is None or first[0] not in ('iadd', 'extend') or first[1].count(x) <= nx:
+            return ''
+    if [x for x in observed if x not in extra] != [x for x in expected if x not in extra]:
+        return ''
+    return ':repeated-inside-one-batch'
+
+
 def kind_name(kinds, a):
     k = kinds.get(a)
     if k is None:
         return 'marker' if a.startswith('-Wl,--') else 'foreign'
-    return {FRONT_OVR: 'front', BACK_OVR: 'back', ONCE: 'once', PLAIN: 'plain'}[k]
+    return KIND_NAMES[k]
 
 
 class Acc:
@@ -370,6 +493,17 @@ def run_case(clsname, ops, acc, compare_prefix, key_idx=None):
                 acc.c[n + '_with_pending_queue'] += 1
                 if obj.needs_override_check:
                     acc.c['observed_with_pending_override_check'] += 1
+                    # the override merge must leave repeated non-dedupable arguments alone, wherever they wait
+                    seq = [x for x in obj.pre if nondedup(kinds.get(x))]
+                    if seq:
+                        rest = [x for x in obj._container if nondedup(kinds.get(x))]
+                        if len(set(seq)) < len(seq) or not set(seq).isdisjoint(rest):
+                            acc.c['override_merge_with_repeated_non_dedupable_in_front_queue'] += 1
+                    seq = [x for x in obj.post if nondedup(kinds.get(x))]
+                    if seq:
+                        rest = [x for x in obj._container if nondedup(kinds.get(x))]
+                        if len(set(seq)) < len(seq) or not set(seq).isdisjoint(rest):
+                            acc.c['override_merge_with_repeated_non_dedupable_in_back_queue'] += 1
             if len(obj) != len(model):
                 acc.c['len_differs_before_flush(unspecified,not_compared)'] += 1
         elif is_last and n == 'copy' and (obj.pre or obj.post):
@@ -398,13 +532,13 @@ def run_case(clsname, ops, acc, compare_prefix, key_idx=None):
                 acc.c['native_with_group'] += 1
         if obs != exp:
             ok = False
-            acc.viol('C13:%s:%s:%s' % (clsname, n, diff_class(exp, obs, kinds)),
+            acc.viol('C13:%s:%s:%s%s' % (clsname, n, diff_class(exp, obs, kinds), batch_repeat_tag(ops[:idx + 1], exp, obs, kinds)),
                      'after %s: expected %r, observed %r' % ('; '.join(opname(o) for o in ops[:idx + 1]), exp, obs), rep)
         if n == 'tn_copy':
             after = list(obj)
             if after != model:
                 ok = False
-                acc.viol('C13:%s:tn_copy-changed-object:%s' % (clsname, diff_class(model, after, kinds)),
+                acc.viol('C13:%s:tn_copy-changed-object:%s%s' % (clsname, diff_class(model, after, kinds), batch_repeat_tag(ops[:idx + 1], model, after, kinds)),
                          'to_native(copy=True) changed the object: expected %r, observed %r' % (model, after), rep)
         if n == 'read':
             acc.c['invariant_checks'] += 1
@@ -416,7 +550,7 @@ def run_case(clsname, ops, acc, compare_prefix, key_idx=None):
             lo = list(o)
             if lo != m:
                 ok = False
-                acc.viol('C13:%s:original-changed:%s' % (clsname, diff_class(m, lo, kinds)),
+                acc.viol('C13:%s:original-changed:%s%s' % (clsname, diff_class(m, lo, kinds), batch_repeat_tag(ops[:idx + 1], m, lo, kinds)),
                          'original of a copy() no longer equals its list: expected %r, observed %r' % (m, lo), rep)
     return key, model, orig_models, ok
 
@@ -524,8 +658,12 @@ def flat_chunk(arg):
 # binary operation]; then every register is read (the changed one first) and compared with its reference list:
 # the result with ref_batch(list of a, list of b), the operands with the lists they denoted before (being used as an
 # operand changes nothing, and nothing done to one object afterwards shows in another).
-PAIR_ALPHA = ['-Ia', '-Ib', '-Dx', 'libz.a', '-Wall']      # two front, one back-override, one once-only, one plain
-PAIR_UNARY = [('iadd', (a,)) for a in PAIR_ALPHA] + [('read', ()), ('copy', ())]
+PAIR_ALPHAS = {
+    'clike': ['-Ia', '-Ib', '-Dx', 'libz.a', '-Wall'],      # two front, one back-override, one once-only, one plain
+    'base': ['-Ia', '-Ib', '-Dx', 'libz.a', '-Wall'],
+    'd': ['-Ia', '-L-lfoo', '-L/x/libfoo.a', 'libz.a', '-O'],   # front override, front not de-dupable, front once-only, once-only, plain
+}
+PAIR_UNARYS = {c: [('iadd', (a,)) for a in al] + [('read', ()), ('copy', ())] for c, al in PAIR_ALPHAS.items()}
 # name -> (text, registers used as operands, register that holds the result)
 PAIR_BIN = collections.OrderedDict([
     ('iadd_obj', ('a += b', 'ab', 'a')),
@@ -541,15 +679,15 @@ PAIR_BIN = collections.OrderedDict([
     ('add_self', ('c = a + a', 'a', 'c')),
 ])
 PAIR_SOLO = ('iadd_selfcopy', 'iadd_self', 'add_self')
-PAIR_POST = [(r, u) for r in 'abc' for u in PAIR_UNARY] + [('bin', b) for b in PAIR_BIN]
-PAIR_HIST = {}          # depth -> list of histories (tuples of unary operations), shortest first
+PAIR_POSTS = {c: [(r, u) for r in 'abc' for u in un] + [('bin', b) for b in PAIR_BIN] for c, un in PAIR_UNARYS.items()}
+PAIR_HIST = {}          # (class, depth) -> list of histories (tuples of unary operations), shortest first
 
 
-def pair_histories(depth):
-    if depth not in PAIR_HIST:
+def pair_histories(clsname, depth):
+    if (clsname, depth) not in PAIR_HIST:
         import itertools
-        PAIR_HIST[depth] = [h for n in range(depth + 1) for h in itertools.product(PAIR_UNARY, repeat=n)]
-    return PAIR_HIST[depth]
+        PAIR_HIST[clsname, depth] = [h for n in range(depth + 1) for h in itertools.product(PAIR_UNARYS[clsname], repeat=n)]
+    return PAIR_HIST[clsname, depth]
 
 
 def pair_opname(step):
@@ -609,9 +747,15 @@ def pair_sum_facts(left, right, observed, kinds, direct):
     for x in sorted(have & want):
         if got[x] > lc[x] + rc[x]:
             bad.append(('invented', 'argument %r occurs %d times, the two sides hold it %d times' % (x, got[x], lc[x] + rc[x])))
-    pl = [x for x in list(left) + list(right) if direct or kinds[x] == PLAIN]
-    op = [x for x in observed if direct or kinds.get(x) == PLAIN]
-    if pl != op:
+    if direct:
+        pl, op = list(left) + list(right), list(observed)
+    else:
+        pl = ([x for x in right if nondedup(kinds[x]) and kinds[x].front] + [x for x in left if nondedup(kinds[x])]
+              + [x for x in right if nondedup(kinds[x]) and not kinds[x].front])
+        op = [x for x in observed if nondedup(kinds.get(x))]
+    if collections.Counter(pl) != collections.Counter(op):
+        bad.append(('plain-multiplicity', 'non-dedupable arguments are %r, the two sides say %r' % (op, pl)))
+    elif pl != op:
         bad.append(('plain-order', 'non-dedupable arguments are %r, the two sides say %r' % (op, pl)))
     return bad
 
@@ -697,14 +841,14 @@ def run_pair(clsname, ha, hb, binop, post, acc):
 def pair_chunk(arg):
     clsname, da, db, with_post, hb_slice = arg
     acc = Acc()
-    has = pair_histories(da)
-    posts = ([None] + PAIR_POST) if with_post else [None]
+    has = pair_histories(clsname, da)
+    posts = ([None] + PAIR_POSTS[clsname]) if with_post else [None]
     for hb in hb_slice:
         for binop in PAIR_BIN:
             if binop in PAIR_SOLO and hb:
                 continue
             # the solo operations have only one object to prepare: it gets the longer of the two history bounds
-            for ha in (pair_histories(max(da, db)) if binop in PAIR_SOLO else has):
+            for ha in (pair_histories(clsname, max(da, db)) if binop in PAIR_SOLO else has):
                 for post in posts:
                     run_pair(clsname, ha, hb, binop, post, acc)
     return dict(acc.c), acc.v, dict(acc.vn)
@@ -751,7 +895,7 @@ def run_seqread(clsname, ops, reader, acc):
                  '%s raised %r after %s (eager list %r, len() said %d)' % (reader, e, text, model, nlen), rep)
         return
     if obs != exp:
-        acc.viol('C13:%s:seqread:%s:%s' % (clsname, reader, diff_class(exp, obs, kinds)),
+        acc.viol('C13:%s:seqread:%s:%s%s' % (clsname, reader, diff_class(exp, obs, kinds), batch_repeat_tag(ops, model, list(obj), kinds)),
                  '%s after %s: expected %r, observed %r' % (reader, text, exp, obs), rep)
 
 
@@ -831,18 +975,76 @@ def detect_compiler(ck):
     return dd
 
 
+def repo_arglist_classes():
+    """Names of all classes under mesonbuild/ that derive (directly or not) from CompilerArgs, found in the source text."""
+    pat = re.compile(r'^class\s+(\w+)\s*\(([^)]*)\)\s*:', re.M)
+    decls = []
+    for root, dirs, files in os.walk(os.path.join(REPO, 'mesonbuild')):
+        dirs.sort()
+        for f in sorted(files):
+            if f.endswith('.py'):
+                with open(os.path.join(root, f), encoding='utf-8') as fh:
+                    txt = fh.read()
+                if 'CompilerArgs' in txt:
+                    for m in pat.finditer(txt):
+                        decls.append((m.group(1), [b.strip().split('.')[-1] for b in m.group(2).split(',')]))
+    found = {'CompilerArgs'}
+    while True:
+        more = {n for n, bases in decls if n not in found and found & set(bases)}
+        if not more:
+            return sorted(found)
+        found |= more
+
+
+def classes_part(ck):
+    """The class dimension: which classes exist, what their tables can produce, what the alphabets hold."""
+    names = repo_arglist_classes()
+    driven = {CLS[c].__name__: c for c in CLASSES}
+    ck.require(set(names) == set(driven), 'argument-list classes of the tree %r, driven %r' % (names, sorted(driven)))
+    for c, a, st, tk in build_kinds():
+        ck.violation('C13:%s:tables-contradict-statement:%s' % (c, kind_name(STATED[c], a)),
+                     'the property statement makes %r %s, the tables of %s make it %s'
+                     % (a, KIND_NAMES[st], CLS[c].__name__, KIND_NAMES.get(tk, 'undetermined')), {'cls': c, 'table_kind': a})
+    for c in CLASSES:
+        combos, nprobes, ambiguous = table_probe(CLS[c])
+        have = {}
+        for a in ALPHAS[c]:
+            have.setdefault(KINDS[c][a], []).append(a)
+        ck.require(None not in have, '%s: an argument of the alphabet is left open by the tables' % c)
+        missing = [KIND_NAMES[k] for k in combos if k not in have]
+        ck.require(not missing, '%s: the tables can produce the kinds %r (e.g. %r) but the alphabet has none' % (
+            c, missing, [combos[k] for k in combos if k not in have]))
+        ck.require(all(k in combos for k in have), '%s: the alphabet holds a kind that the probe of the tables does not produce' % c)
+        ck.part('classes', **{c: {'class': CLS[c].__name__, 'prepend_prefixes': list(CLS[c].prepend_prefixes),
+                                  'dedup2_prefixes': list(CLS[c].dedup2_prefixes), 'dedup1_prefixes': list(CLS[c].dedup1_prefixes),
+                                  'probe_arguments': nprobes, 'probe_arguments_left_open_by_tables(unspecified)': ambiguous,
+                                  'kinds_the_tables_can_produce': sorted(KIND_NAMES[k] for k in combos),
+                                  'alphabet_by_kind': {KIND_NAMES[k]: v for k, v in sorted(have.items(), key=lambda kv: KIND_NAMES[kv[0]])},
+                                  'operations': len(OPSETS[c])}})
+    ck.part('classes', classes_in_tree=names, classes_driven=len(CLASSES))
+
+
 def main():
     global OPS, NATIVE_ALPHA, FLAT_KNOWN
     ck = Check('C13', 'model_checking')
     dd = detect_compiler(ck)
-    FULL = build_ops(ALPHA)
+    for c in CLASSES:
+        OPSETS[c] = build_ops(ALPHAS[c])
+    FULL = OPSETS['clike']
     OPS = FULL
     if ck.args.replay:
         return replay(ck)
+    classes_part(ck)
     ck.assume('compiler object: %s %s (%s), linker %s, detected through mesonbuild.compilers.detect.detect_c_compiler on a '
               'real Environment' % (CC.get_id(), CC.version, ' '.join(CC.get_exelist()), CC.linker.id))
     ck.assume('argument kinds (front/override/once/plain) of the 9-argument alphabet are taken from the property statement; '
               'for the base CompilerArgs class (no prepend/override prefixes declared) everything is plain except library files')
+    ck.assume('the argument-list class is a dimension: every CompilerArgs subclass defined under mesonbuild/ is driven (part '
+              'classes); the kinds of the D class come from its tables (prepend_prefixes, dedup2_prefixes, inherited dedup1_*), '
+              'which are its documented contract; the eager algorithm is the one of the property statement for every class')
+    ck.assume('no D compiler is installed: DCompilerArgs objects are bound to the detected gcc object like the base class; the '
+              'compiler object only takes part in to_native (base-class conversion = compiler.unix_args_to_native, the identity '
+              'for gcc), the D-specific translation of arguments is not part of this property')
     ck.assume('default include directories used by the to_native oracle are the ones the real compiler object reports')
     ck.assume('to_native() without copy is only ever the last operation on an object (it writes group markers into it)')
     ck.assume('merging: two histories with the same product key have the same futures because the key holds every mutable '
@@ -850,21 +1052,25 @@ def main():
 
     # search plan: (class, label, depth, operation list).  "depth" = number of arbitrary operations; one observer follows.
     BASE4 = ['-Ia', '-Dx', 'libz.a', '-Wall']
-    plan = [('clike', 'clike', ck.q(3, 4), FULL), ('base', 'base', 3, FULL)]
+    DRED = ['-Ia', '-L-lfoo', '-L/x/libfoo.a', 'libz.a', '-O']
+    plan = [('clike', 'clike', ck.q(3, 4), FULL), ('base', 'base', 3, OPSETS['base']), ('d', 'd', 3, OPSETS['d'])]
     if ck.thorough:
         # the base class treats 8 of the 9 arguments identically (plain); depth 4 there uses one argument of each
         # CLike kind (4 arguments, all 16 pairs) - the full alphabet at depth 4 would be ~60 M states.
         plan.append(('base', 'base_depth4_reduced_alphabet', 4, build_ops(BASE4)))
+        # D: one argument of each of its five kinds
+        plan.append(('d', 'd_depth4_reduced_alphabet', 4, build_ops(DRED)))
     fdepth = 3
     total_states = total_trans = traces = 0
     pending_reads = 0
-    classes = ['clike', 'base']
+    classes = list(CLASSES)
     known = {}
     bounds = []
-    if ck.want('bfs'):
+    if ck.want('bfs') or any(ck.want('bfs_' + p[1]) for p in plan):
         for clsname, label, depth, ops in plan:
+            if not ck.want('bfs') and not ck.want('bfs_' + label):
+                continue
             r = bfs(ck, clsname, depth, ops)
-            OPS = FULL
             c = r['counters']
             if label == clsname:
                 known[clsname] = r['keys']
@@ -882,13 +1088,22 @@ def main():
                 ck.require(c['direct_insertion_with_pending_queue'] > 0, label + ': no direct insertion with a pending queue')
                 ck.require(c['original_checks'] > 0, label + ': no original of a copy was ever re-read')
                 if clsname == 'clike':
-                    ck.require(c['observed_with_pending_override_check'] > 0, 'override merge never pending at a read')
                     ck.require(c['native_with_group'] > 0, 'group markers never expected')
+                if any(k.override for k in KINDS[clsname].values()):
+                    ck.require(c['observed_with_pending_override_check'] > 0, label + ': override merge never pending at a read')
+                    # the override merge runs over queues that hold the same non-dedupable argument several times (or
+                    # once more than the merged part): in the back queue for every class, in the front queue for the
+                    # classes whose tables make a prepended argument non-dedupable
+                    ck.require(c['override_merge_with_repeated_non_dedupable_in_back_queue'] > 0,
+                               label + ': override merge never ran over a repeated non-dedupable appended argument')
+                    if FRONT_PLAIN in KINDS[clsname].values():
+                        ck.require(c['override_merge_with_repeated_non_dedupable_in_front_queue'] > 0,
+                                   label + ': override merge never ran over a repeated non-dedupable prepended argument')
             r = None
 
     if ck.want('flat'):
-        OPS = FULL
         for clsname in classes:
+            OPS = OPSETS[clsname]
             FLAT_KNOWN = known.get(clsname) if not ck.n_viol else None
             # quick: all sequences <= 2, and of those of length 3 the quarter whose first operation index = seed mod 4
             deep = frozenset(i for i in range(len(OPS)) if ck.thorough or i % 4 == ck.seed % 4)
@@ -921,8 +1136,8 @@ def main():
         pplan = [('pair', ck.q(2, 3), ck.q(3, 4), False), ('pair_then_one_more', 1, 3, True)]
         for clsname in classes:
             for label, da, db, with_post in pplan:
-                hbs = pair_histories(db)
-                pair_histories(max(da, db))
+                hbs = pair_histories(clsname, db)
+                pair_histories(clsname, max(da, db))
                 nchunks = max(1, min(len(hbs), NCPU * 8))
                 # histories are ordered shortest first; deal them round-robin so that every chunk costs the same
                 chunks = [(clsname, da, db, with_post, hbs[i::nchunks]) for i in range(nchunks)]
@@ -940,12 +1155,12 @@ def main():
                 pair_cases += tot['cases']
                 traces += tot['cases']
                 total_trans += tot['steps']
-                ck.part('%s_%s' % (label, clsname), unary_operations=len(PAIR_UNARY), binary_operations=len(PAIR_BIN),
-                        following_operations=len(PAIR_POST) if with_post else 0,
-                        histories_of_a=len(pair_histories(da)), histories_of_b=len(hbs), max_history_a=da, max_history_b=db,
+                ck.part('%s_%s' % (label, clsname), arguments=PAIR_ALPHAS[clsname], unary_operations=len(PAIR_UNARYS[clsname]), binary_operations=len(PAIR_BIN),
+                        following_operations=len(PAIR_POSTS[clsname]) if with_post else 0,
+                        histories_of_a=len(pair_histories(clsname, da)), histories_of_b=len(hbs), max_history_a=da, max_history_b=db,
                         violating=vcount, **{k: v for k, v in sorted(tot.items())})
                 bounds.append('%s_%s: histories <= %d (a) x <= %d (b) over %d unary operations x %d binary operations%s'
-                              % (label, clsname, da, db, len(PAIR_UNARY), len(PAIR_BIN), ' x %d following operations' % len(PAIR_POST) if with_post else ''))
+                              % (label, clsname, da, db, len(PAIR_UNARYS[clsname]), len(PAIR_BIN), ' x %d following operations' % len(PAIR_POSTS[clsname]) if with_post else ''))
                 if not ck.n_viol:
                     ck.require(tot['operand_object_with_pending_queue'] > 0, label + ': no operand object had a pending queue')
                     ck.require(tot['operand_object_with_pending_queue_and_merged_part'] > 0,
@@ -964,8 +1179,8 @@ def main():
 
     seq_reads = 0
     if ck.want('seqread'):
-        OPS = FULL
         for clsname in classes:
+            OPS = OPSETS[clsname]
             chunks = [(clsname, [i]) for i in range(len(OPS))]
             tot = collections.Counter()
             vcount = 0
@@ -983,7 +1198,7 @@ def main():
             if not ck.n_viol:
                 for rd in SEQ_READERS:
                     ck.require(tot[rd + '_with_pending_queue'] > 0, 'seqread: %s never ran with a pending queue' % rd)
-        bounds.append('seqread: all sequences <= 2 over %d operations x %d readers' % (len(OPS), len(SEQ_READERS)))
+        bounds.append('seqread: all sequences <= 2 over the operations of each class x %d readers' % (len(SEQ_READERS),))
 
     if ck.want('native'):
         import itertools
@@ -1016,10 +1231,12 @@ def main():
               reads_with_nonempty_pending_queue=pending_reads,
               skipped_unspecified=ck.parts.get('native', {}).get('skipped_unspecified', 0),
               bounds=bounds,
-              rule='breadth-first search over %d operations (read, to_native(copy=True), copy, {append, +=[x], extend([x]), '
-                   'append_direct, extend_direct([x]), insert(0,x)} x 9 arguments, += [x,y] for all 81 ordered pairs) + terminal '
+              rule='breadth-first search over %s operations (read, to_native(copy=True), copy, {append, +=[x], extend([x]), '
+                   'append_direct, extend_direct([x]), insert(0,x)} x the arguments of the class (9 C-like/base, 7 D), += [x,y] for all '
+                   'ordered pairs) + terminal '
                    'to_native(): all operations on every product state of depth < D, the 4 observers/terminal on every state of '
-                   'depth <= D (bounds: %s), for CLikeCompilerArgs and base CompilerArgs bound to the detected gcc; states = distinct '
+                   'depth <= D (bounds: %s), for CLikeCompilerArgs, base CompilerArgs and DCompilerArgs (every argument-list class of '
+                   'the tree, each with an alphabet covering every kind its tables can produce) bound to the detected gcc; states = distinct '
                    '(real _container, pre, post, needs_override_check [+ same for originals of copies], reference list); every '
                    'transition = replay of the representative history on a fresh real object + one operation; flat part = all '
                    'sequences <= %d over the same operations without merging, each followed by a read; pair part = every '
@@ -1027,7 +1244,7 @@ def main():
                    '10 binary operations whose operand is an argument-list object (+=, extend, extend_direct, +, constructor, '
                    'list + object, the object itself and its copy) [x one following operation on any object], every object '
                    're-read afterwards; seqread part = reversed()/indexing/slicing after every sequence <= 2; native part = all '
-                   'lists <= N over 11 linker/-isystem tokens' % (len(FULL), '; '.join(bounds), fdepth),
+                   'lists <= N over 11 linker/-isystem tokens' % ('/'.join('%d' % len(OPSETS[c]) for c in CLASSES), '; '.join(bounds), fdepth),
               two_object_cases=pair_cases, sequence_protocol_reads=seq_reads,
               exhaustive=True)
 
